@@ -17,6 +17,11 @@ open Py
 @[simp] theorem throw_err {α} (e : PyExc) : (throw e : M α) = .error e := by rfl
 @[simp] theorem map_ok {α β} (f : α → β) (a : α) : f <$> (Except.ok a : M α) = .ok (f a) := by rfl
 
+@[simp] theorem tryCatch_ok {α} (a : α) (h : PyExc → M α) : tryCatchThe PyExc (Except.ok a : M α) h = .ok a := by rfl
+@[simp] theorem tryCatch_err {α} (e : PyExc) (h : PyExc → M α) : tryCatchThe PyExc (Except.error e : M α) h = h e := by rfl
+@[simp] theorem tryCatch_ok' {α} (a : α) (h : PyExc → M α) : MonadExcept.tryCatch (Except.ok a : M α) h = .ok a := by rfl
+@[simp] theorem tryCatch_err' {α} (e : PyExc) (h : PyExc → M α) : MonadExcept.tryCatch (Except.error e : M α) h = h e := by rfl
+
 /-! ### traversals with a pure predicate / function -/
 
 theorem anyM_ok (f : PyVal → M PyVal) (p : PyVal → Bool) (l : List PyVal)
@@ -250,5 +255,34 @@ theorem str_join_list (sep : Str) (l : List Str) : str_join (.str sep) (.list (l
 @[simp] theorem lookupField_cons (k : String) (v : PyVal) (rest : List (String × PyVal)) (n : String) :
     lookupField ((k, v) :: rest) n = if k == n then some v else lookupField rest n := by rfl
 @[simp] theorem lookupField_nil (n : String) : lookupField [] n = Option.none := by rfl
+
+end PyRt
+
+namespace PyRt
+open Py
+
+/-! ### `for` loops (Lean's `forIn` over the materialised items) -/
+
+/-- a loop whose body never breaks / returns: a left fold over the items -/
+theorem forIn_yield_ok {σ : Type} (l : List PyVal) (init : σ) (f : PyVal → σ → M (ForInStep σ)) (g : PyVal → σ → σ)
+    (h : ∀ x ∈ l, ∀ s, f x s = .ok (.yield (g x s))) :
+    forIn l init f = (.ok (l.foldl (fun s x => g x s) init) : M σ) := by
+  induction l generalizing init with
+  | nil => simp
+  | cons x xs ih =>
+    simp only [List.forIn_cons, h x (List.mem_cons_self ..) init, List.foldl_cons]
+    exact ih _ (fun y hy s => h y (List.mem_cons_of_mem _ hy) s)
+
+/-- a loop that only appends one item per iteration to an accumulator -/
+theorem forIn_append_ok {α : Type} (l : List PyVal) (init : List α) (f : PyVal → List α → M (ForInStep (List α)))
+    (k : PyVal → List α) (h : ∀ x ∈ l, ∀ s, f x s = .ok (.yield (s ++ k x))) :
+    forIn l init f = (.ok (init ++ l.flatMap k) : M (List α)) := by
+  rw [forIn_yield_ok l init f (fun x s => s ++ k x) h]
+  congr 1
+  induction l generalizing init with
+  | nil => simp
+  | cons x xs ih =>
+    simp only [List.foldl_cons, List.flatMap_cons]
+    rw [ih (init ++ k x) (fun y hy s => h y (List.mem_cons_of_mem _ hy) s), List.append_assoc]
 
 end PyRt
